@@ -103,7 +103,7 @@ def r2_counts(ctx) -> None:
     a = [x.arg for x in uo.args.args]
     ok = bool(ps) and all(p.kind == "return" and p.value_text() == f"self._update_port_count({a[1]}, num_outs={a[2]})" for p in ps)
     ctx.check(ok, "C16.R2", "Hugr._update_node_outs", file, uo.lineno, "", uo)
-    ih = ctx.cfn(f"{H}.insert_hugr")
+    ih = ctx.cfn(f"{H}.insert_hugr", accessors=True)
     adds = [c for c in calls_in(ih) if call_name(c) in ("add_node", "_add_node")]
     ok = len(adds) == 1 and kwarg(adds[0], "num_outs", 2) is not None and u(kwarg(adds[0], "num_outs", 2)).endswith("._num_outs")
     ctx.check(ok, "C16.R2", "Hugr.insert_hugr: copied handles carry the source's count", file, ih.lineno, "", ih)
